@@ -8,7 +8,8 @@ from . import fetch_result, subscription_state     # noqa: F401
 
 MOD = "aiokafka.consumer.fetcher"
 
-classmodel("Subscription", {"_reassignment_in_progress": BOOL, "assignment": Opt(Ref("Assignment"))})
+classmodel("Subscription", {"_reassignment_in_progress": BOOL, "_assignment": Opt(Ref("Assignment"))},
+           props={"assignment": "self._assignment"})
 classmodel("SubscriptionState", {"_subscription": Opt(Ref("Subscription"))},
            props={"reassignment_in_progress": "(True if self._subscription is None else self._subscription._reassignment_in_progress)"})
 # Fetcher._records holds FetchResult and FetchError objects; both are modelled by the FetchResult class model,
